@@ -369,8 +369,10 @@ def _tlc_cached(cfg, defs, timeout):
         import hashlib
         import pickle
         h = hashlib.md5()
+        import re
         for f in (os.path.join(tlc.SPEC, MODULE), os.path.join(tlc.SPEC, "lib", "Cyc2.tla"), os.path.join(tlc.SPEC, "lib", "Emit.tla")):
-            h.update(open(f, "rb").read())
+            txt = re.sub(r"\\\*.*", "", re.sub(r"\(\*.*?\*\)", "", open(f).read(), flags=re.S))   # comments do not matter
+            h.update(re.sub(r"\s+", " ", txt).encode())
         h.update(cfg.encode())
         h.update(tlc.json.dumps(defs, sort_keys=True).encode())
         path = os.path.join(cache, h.hexdigest() + ".pkl")
